@@ -246,6 +246,31 @@ pub fn fixed_pool() -> Vec<Value> {
     for (a, b) in [(0.0, 0.0), (-0.0, 0.0), (0.0, -0.0), (-0.0, -0.0), (1.0, 2.0), (1.0, 3.0), (2.0, 1.0), (-90.0, 180.0), (51.5, 0.0), (51.5, -0.0), (0.0, 7.5), (-0.0, 7.5)] {
         p.push(Value::make_coord_from(a, b));
     }
+    // neighbours in the last place: equality, hashing and ordering of floats are exact (no tolerance anywhere)
+    {
+        let a = 0.3f64;
+        let ulps = |k: u64| f64::from_bits(a.to_bits() + k);
+        for x in [a, ulps(1), ulps(2), ulps(4), 1.0 + f64::EPSILON, 1e-300, 2e-300] {
+            p.push(Value::make_number(x));
+            p.push(Value::make_number_unit(x, u("meter")));
+            p.push(Value::make_coord_from(x, 0.3));
+            p.push(Value::make_coord_from(0.3, x));
+        }
+    }
+    // letter case is significant everywhere
+    for s in ["A", "ab", "Ab", "aB"] {
+        p.push(Value::make_uri(s));
+        p.push(Value::make_symbol(s));
+        p.push(Value::make_ref(s));
+        p.push(Value::make_xstr_from("A", s));
+    }
+    p.push(Value::make_xstr_from("Ab", "a"));
+    p.push(Value::make_xstr_from("AB", "a"));
+    for k in ["a", "A", "ab", "aB"] {
+        let mut d = Dict::new();
+        d.insert(k.to_string(), Value::make_number(1.0));
+        p.push(Value::make_dict(d));
+    }
     let n = |x: f64| Value::make_number(x);
     p.push(Value::make_list(vec![]));
     p.push(Value::make_list(vec![n(1.0)]));
